@@ -427,7 +427,7 @@ func genXCase(rt *rapid.T, cfg dsl.GenCfg, nmsgs int, vc dsl.ValCfg, suffixes bo
 		}
 		k.Msgs = append(k.Msgs, m)
 	}
-	if rapid.Bool().Draw(rt, "upper_half_payload") {
+	if !cfg.NoHuge && rapid.Bool().Draw(rt, "upper_half_payload") {
 		addUpperHalfMessage(rt, &k)
 	}
 	if rapid.IntRange(0, 3).Draw(rt, "respell") == 0 {
